@@ -12,6 +12,7 @@ pub open spec fn slot_name(name: Seq<char>) -> int { encode_utf8(name).len() - 1
 pub open spec fn agree(r: ISet<Pt>, s: ISet<Pt>, u: ISet<Pt>) -> bool { r.intersect(u) =~= s.intersect(u) }
 pub open spec fn all_pts() -> ISet<Pt> { ISet::new(|p: Pt| shaped(p)) }
 pub open spec fn co(z: ISet<Pt>) -> ISet<Pt> { all_pts().difference(z) }          // semantic complement
+#[verifier::opaque]
 pub open spec fn ok(g: &SymbolicAsyncGraph, r: ISet<Pt>, s: ISet<Pt>) -> bool { agree(r, s, unit_of(g)) && r.subset_of(base_unit()) }
 // the unit set does not constrain slot k (k is not a restricted in-scope variable)
 pub open spec fn slot_free(g: &SymbolicAsyncGraph, k: int) -> bool {
@@ -166,6 +167,7 @@ pub proof fn lemma_neg_agree(g: &SymbolicAsyncGraph, r: ISet<Pt>, s: ISet<Pt>)
     requires wf_graph(g), agree(r, s, unit_of(g))
     ensures agree(neg(g, r), co(s), unit_of(g))
 {
+    reveal(wf_graph);
     let u = unit_of(g);
     assert forall|p: Pt| neg(g, r).intersect(u).contains(p) <==> co(s).intersect(u).contains(p) by {
         if u.contains(p) {
@@ -190,6 +192,7 @@ pub proof fn lemma_pre_agree(g: &SymbolicAsyncGraph, r: ISet<Pt>, s: ISet<Pt>)
     requires wf_graph(g), agree(r, s, unit_of(g))
     ensures agree(pre_of(g, r), pre_of(g, s), unit_of(g))
 {
+    reveal(wf_graph);
     let u = unit_of(g);
     assert forall|p: Pt| u.contains(p) implies (pre_of(g, r).contains(p) <==> pre_of(g, s).contains(p)) by {
         if pre_of(g, r).contains(p) {
@@ -214,6 +217,7 @@ pub proof fn lemma_eu_agree_half(g: &SymbolicAsyncGraph, r1: ISet<Pt>, r2: ISet<
     requires wf_graph(g), agree(r1, s1, unit_of(g)), agree(r2, s2, unit_of(g))
     ensures eu_of(g, r1, r2).intersect(unit_of(g)).subset_of(eu_of(g, s1, s2))
 {
+    reveal(wf_graph);
     let u = unit_of(g);
     assert forall|p: Pt| eu_of(g, r1, r2).intersect(u).contains(p) implies eu_of(g, s1, s2).contains(p) by {
         assert forall|z: ISet<Pt>| eu_closed(g, s1, s2, z) implies #[trigger] z.contains(p) by {
@@ -244,6 +248,7 @@ pub proof fn lemma_eu_agree(g: &SymbolicAsyncGraph, r1: ISet<Pt>, r2: ISet<Pt>, 
     requires wf_graph(g), agree(r1, s1, unit_of(g)), agree(r2, s2, unit_of(g))
     ensures agree(eu_of(g, r1, r2), eu_of(g, s1, s2), unit_of(g))
 {
+    reveal(wf_graph);
     lemma_eu_agree_half(g, r1, r2, s1, s2);
     lemma_eu_agree_half(g, s1, s2, r1, r2);
     let u = unit_of(g);
@@ -254,6 +259,7 @@ pub proof fn lemma_eg_agree_half(g: &SymbolicAsyncGraph, r: ISet<Pt>, s: ISet<Pt
     requires wf_graph(g), agree(r, s, unit_of(g))
     ensures eg_of(g, r, l).intersect(unit_of(g)).subset_of(eg_of(g, s, l))
 {
+    reveal(wf_graph);
     let u = unit_of(g);
     assert forall|p: Pt| eg_of(g, r, l).intersect(u).contains(p) implies eg_of(g, s, l).contains(p) by {
         let z = choose|z: ISet<Pt>| eg_dense(g, r, l, z) && #[trigger] z.contains(p);
@@ -278,6 +284,7 @@ pub proof fn lemma_eg_agree(g: &SymbolicAsyncGraph, r: ISet<Pt>, s: ISet<Pt>, l:
     requires wf_graph(g), agree(r, s, unit_of(g))
     ensures agree(eg_of(g, r, l), eg_of(g, s, l), unit_of(g))
 {
+    reveal(wf_graph);
     lemma_eg_agree_half(g, r, s, l);
     lemma_eg_agree_half(g, s, r, l);
     let u = unit_of(g);
